@@ -83,6 +83,10 @@ def replay(prop, path):
     mod = load(prop)
     with open(path) as f:
         v = json.load(f)
+    if v["case"] not in mod.CASES:
+        print(f"replay {prop}: case {v['case']!r} is a whole work item of the exploration, not a single case: rerun `./check {prop} quick` to reproduce; recorded detail follows")
+        print(json.dumps(v.get("detail"))[:3000])
+        return 1
     fn = mod.CASES[v["case"]]
     params = core.unjson(v["params"])
     if isinstance(params, dict) and params.pop("_loglevel", None) == "debug":
